@@ -188,6 +188,64 @@ def bcastInPlace (lc : LC K) (step : BStep K) (guard : Bool) (ps : List Nat) (o 
 def opStep (lc : LC K) (op : Op) (t' : Nat) : BStep K :=
   fun p o m => (op.exec lc p o t' 0 m).map (·.1)
 
+/-! ## Power-space broadcasting, out-of-place forms (`x * other`, `other - x`, …) -/
+
+/-- One step `res = getattr(xi, op)(other)` of the out-of-place loop: part buffer, operand
+buffer, the buffer the result element is allocated in, memory. -/
+abbrev BStepOut (K : Type) := Nat → Nat → Nat → Mem K → Option (Mem K)
+
+/-- `results = []; for xi in self: results.append(getattr(xi, op)(other))`, in order; the
+`k`-th result is allocated in the `k`-th buffer of `ts`. A length mismatch is `none`. -/
+def bcastOutLoop (step : BStepOut K) (o : Nat) : List Nat → List Nat → Mem K → Option (Mem K)
+  | [], [], m => some m
+  | p :: ps, t :: ts, m =>
+      match step p o t m with
+      | some m' => bcastOutLoop step o ps ts m'
+      | none => none
+  | _, _, _ => none
+
+/-- `x op other` (not in place) for an element `x` of a power space with part buffers `ps`
+(the same part object may occur several times) and an `other` of the base space (buffer `o`,
+possibly one of the parts); the results go to the fresh buffers `ts`, which
+`space.element(results)` wraps without copying. `guardAlways` is whether the source copies
+`other` (into `t0`) for out-of-place operators too when it is one of the parts (extracted:
+`Gen/Broadcast.lean::copyGuardAlways`; `false` for the guard `op.startswith('__i') and …`). -/
+def bcastOut (lc : LC K) (step : BStepOut K) (guardAlways : Bool) (ps ts : List Nat)
+    (o t0 : Nat) (m : Mem K) : Option (Mem K) :=
+  if guardAlways && ps.contains o then
+    match lincomb1 lc 1 o t0 m with           -- other = other.copy()
+    | some m1 => bcastOutLoop step t0 ps ts m1
+    | none => none
+  else bcastOutLoop step o ps ts m
+
+/-- The step taken for the out-of-place element operators (`xi.__add__(other)`,
+`xi.__rsub__(other)`, …): `Op.exec` with the result allocated in `t`. -/
+def opStepOut (lc : LC K) (op : Op) : BStepOut K :=
+  fun p o t m => (op.exec lc p o t 0 m).map (·.1)
+
+/-! ## `ProductSpace._multiply` / `_divide` and the generic component loop -/
+
+/-- `for spc, xp, yp, outp in zip(self.spaces, x1.parts, x2.parts, out.parts):
+spc._<prim>(xp, yp, outp)`: the component loop shared by `ProductSpace._lincomb`,
+`_multiply` and `_divide`, over leaf part buffers. A length mismatch is `none`. -/
+def ploop (prim : Args → Mem K → Option (Mem K)) :
+    List Nat → List Nat → List Nat → Mem K → Option (Mem K)
+  | x :: xs, y :: ys, o :: os, m =>
+      match prim ⟨x, y, o⟩ m with
+      | some m' => ploop prim xs ys os m'
+      | none => none
+  | [], [], [], m => some m
+  | _, _, _, _ => none
+
+/-- `ProductSpace._multiply(x1, x2, out)` with the tensor-space leaf
+`np.multiply(x1.data, x2.data, out=out.data)`. -/
+def pmultiply (xs ys os : List Nat) (m : Mem K) : Option (Mem K) :=
+  ploop (fun A m => some (multiply A.x1 A.x2 A.out m)) xs ys os m
+
+/-- `ProductSpace._divide(x1, x2, out)` with the leaf `np.divide(x1.data, x2.data, out=out.data)`. -/
+def pdivide (xs ys os : List Nat) (m : Mem K) : Option (Mem K) :=
+  ploop (fun A m => some (divide A.x1 A.x2 A.out m)) xs ys os m
+
 /-! ## `LinearSpace.lincomb` argument checks (front end), in source order -/
 
 inductive FrontOutcome
